@@ -41,6 +41,9 @@ type C13Case struct {
 	Light  [][2]int `json:"light"` // per section: sky/block light: 0 nil, else seed for 2048 bytes
 	Status string   `json:"status"`
 	Mode   string   `json:"mode"` // network | save | counter
+	// UsedDst (network): the receiving chunk has already received another chunk (same number of
+	// sections, as many distinct states per section, other states), and is edited after the read
+	UsedDst bool `json:"used_dst,omitempty"`
 }
 
 var airStates = func() map[int]bool {
@@ -198,6 +201,31 @@ func c13Check(c C13Case) *pbt.Violation {
 			return pbt.V("c13.network.write", "writing a chunk in network form", "WriteTo n=%d err=%v len=%d", wn, err, buf.Len())
 		}
 		dst := level.EmptyChunk(c.Secs)
+		var priorVals [][]int
+		if c.UsedDst {
+			prior := level.EmptyChunk(c.Secs)
+			for s := 0; s < c.Secs; s++ {
+				seen := map[int]bool{}
+				var vals []int
+				for _, b := range m.blocks[s] {
+					if !seen[b] {
+						seen[b] = true
+						vals = append(vals, (b+7)%nBlockStates)
+					}
+				}
+				priorVals = append(priorVals, vals)
+				for i := 0; i < 4096; i++ {
+					prior.Sections[s].SetBlock(i, level.BlocksState(vals[i%len(vals)]))
+				}
+			}
+			var pb bytes.Buffer
+			if _, err := prior.WriteTo(&pb); err != nil {
+				return pbt.V("c13.network.write", "writing a chunk in network form", "WriteTo (earlier chunk): %v", err)
+			}
+			if pv, stack := pbt.Try(func() { _, err = dst.ReadFrom(&pb) }); pv != nil || err != nil {
+				return pbt.V("c13.network.read-earlier", "reading back what was written", "ReadFrom (earlier chunk): %v %v\n%s", err, pv, stack)
+			}
+		}
 		rd := bytes.NewReader(append(buf.Bytes(), 0xA5, 0x5A))
 		var rnn int64
 		if pv, stack := pbt.Try(func() { rnn, err = dst.ReadFrom(rd) }); pv != nil {
@@ -219,6 +247,38 @@ func c13Check(c C13Case) *pbt.Violation {
 		}
 		if len(dst.BlockEntity) != len(ch.BlockEntity) {
 			return pbt.V("c13.network.blockentity", "identical block entities", "%d block entities, want %d", len(dst.BlockEntity), len(ch.BlockEntity))
+		}
+		// the received chunk keeps behaving as a chunk: SetBlock histories on it keep the counter right
+		for s := range dst.Sections {
+			want := 0
+			for _, b := range m.blocks[s] {
+				if !airStates[b] {
+					want++
+				}
+			}
+			vals := append([]int{}, c.Pools[s]...)
+			if c.UsedDst {
+				vals = append(priorVals[s], vals...)
+			}
+			for j := 0; j < 6 && j < len(vals); j++ {
+				i, v := (s*131+j*977)%4096, vals[(j*5)%len(vals)]
+				if !airStates[m.blocks[s][i]] {
+					want--
+				}
+				if !airStates[v] {
+					want++
+				}
+				m.blocks[s][i] = v
+				if pv, stack := pbt.Try(func() { dst.Sections[s].SetBlock(i, level.BlocksState(v)) }); pv != nil {
+					return pbt.V(pbt.PanicKey("c13.network.setblock", stack), "SetBlock on a received chunk", "section %d SetBlock(%d,%d) after the read panicked: %v", s, i, v, pv)
+				}
+				if got := int(dst.Sections[s].BlockCount); got != want {
+					return pbt.V("c13.network.blockcount-after-set", "after any history of SetBlock calls the block count equals the number of non-air blocks", "section %d: SetBlock(%d,%d) on the received chunk: BlockCount=%d, it holds %d non-air blocks", s, i, v, got, want)
+				}
+			}
+		}
+		if v := c13CompareSections(dst, m, "network-then-set", false, ch); v != nil {
+			return v
 		}
 		for i := range ch.BlockEntity {
 			a, b := ch.BlockEntity[i], dst.BlockEntity[i]
@@ -305,6 +365,7 @@ func c13Check(c C13Case) *pbt.Violation {
 func genC13(t *rapid.T) C13Case {
 	c := C13Case{Secs: rapid.IntRange(1, pbt.Pick(6, 24)).Draw(t, "secs")}
 	c.Mode = rapid.SampledFrom([]string{"network", "network", "save", "save", "counter"}).Draw(t, "mode")
+	c.UsedDst = c.Mode == "network" && rapid.Bool().Draw(t, "used_dst")
 	for s := 0; s < c.Secs; s++ {
 		c.Pools = append(c.Pools, genPool(t, "blocks"))
 		c.Light = append(c.Light, [2]int{rapid.IntRange(0, 3).Draw(t, "sky"), rapid.IntRange(0, 3).Draw(t, "blocklight")})
@@ -349,6 +410,9 @@ var c13Prop = pbt.Register(pbt.Prop[C13Case]{
 	Name: "C13", Gen: genC13, Check: c13Check,
 	Classify: func(c C13Case) (bool, []string, []byte) {
 		labels := []string{"mode_" + c.Mode, fmt.Sprintf("secs_%d", c.Secs)}
+		if c.UsedDst {
+			labels = append(labels, "network_into_chunk_that_received_another_chunk")
+		}
 		classes := map[int]bool{}
 		fills := 0
 		for _, op := range c.Ops {
